@@ -139,6 +139,8 @@ def shard(ctx, spec):
             fails.append(("residue-transaction", "leftover transactions %r" % (res,)))
         if res["ssm_timers"]:
             fails.append(("residue-timer", "leftover transaction timers %r" % (res,)))
+        if out["unexpected_tasks"]:
+            fails.append(("residue-timer", "still scheduled after every transaction must be over: %r" % (out["unexpected_tasks"],)))
         if check_valid_at is not None:
             want = base_reply
             got = [r for (h, r) in out["replies"] if h and h.get("invoke") == 1]
@@ -283,6 +285,8 @@ def batch_judge(frames, out, residue):
         fails.append(("residue-transaction", "leftover transactions %r" % (residue,)))
     if residue["ssm_timers"]:
         fails.append(("residue-timer", "leftover transaction timers %r" % (residue,)))
+    if out.get("unexpected_tasks"):
+        fails.append(("residue-timer", "still scheduled after every transaction must be over: %r" % (out["unexpected_tasks"],)))
     return fails
 
 
